@@ -2,7 +2,7 @@
    row needs is produced exactly once by the per-element blocks of the file that must hold it. *)
 From Coq Require Import String Ascii List Bool Arith Lia FinFun.
 From KV Require Import Lib.TableDef Model.TTable Model.DeclShape Gen.DeclTmpl Model.Decls Gen.SmlTmpl Model.SmlTT
-                       Proofs.TTableProofs Proofs.SmlProofs.
+                       Proofs.TTableProofs Proofs.TTableSigProofs Proofs.SmlProofs.
 Import ListNotations.
 Open Scope string_scope.
 
